@@ -139,6 +139,8 @@ def to_coq(case, r):
 def harness_violation(case, r):
     if r.get("panic"):
         return "panic: " + r["panic"]
+    if (r.get("e2erace") or {}).get("failures"):
+        return "concurrent release/open: " + r["e2erace"]["failures"][0]
     return None
 
 
@@ -253,7 +255,7 @@ def conc_to_coq(case, r):
         o = case["threads"][ti][oi]
         cop = "CAuth %s" % cN(o["h"]) if o["op"] == "auth" else "COp (%s)" % c_op(o)
         evs.append(cpair(cN(call), cN(ret), cop,
-                         cpair(cN(ST[st]), c_pair2(frm), c_pair2(to), cN(2 if az < 0 else az))))
+                         cpair(cN(ST[st]), c_opt(frm, c_state), c_opt(to, c_state), cN(2 if az < 0 else az))))
     return cpair(cbool(case["shared"]), clist(evs))
 
 
@@ -374,6 +376,22 @@ def extra(ctx):
     for v in R[:2]:
         chk.report_case_violation(ctx, ccases[idx[v]], cres.get(idx[v]),
                                   "recorded concurrent history has no sequential explanation accepted by the model")
+    # ---- (c) release racing with open, control level and cesium level
+    nrace = 0
+    for kind, rounds in (("ctlrace", 3000 if ctx.tier == "quick" else 40000),
+                         ("e2erace", 1200 if ctx.tier == "quick" else 12000)):
+        for procs in ("2", "8"):
+            case = {"kind": kind, "rounds": rounds, "id": 0}
+            rr = vlib.run_harness(ctx.bin, [case], timeout=900, procs=1, env={"GOMAXPROCS": procs})
+            r0 = rr.get(0)
+            nrace += 1
+            if r0 is None or r0.get("panic") or (r0.get("e2erace") or {}).get("failures"):
+                c2 = dict(case)
+                c2["GOMAXPROCS"] = procs
+                chk.report_case_violation(ctx, c2, r0, harness_violation(case, r0 or {"panic": "no result: %s" % rr.get("_errors")})
+                                          or "race phase failed")
+                break
+    ctx.extra_cov["release_vs_open_race_runs"] = nrace
     overl = 0
     for i in idx:
         h = cres[i]["hist"]
